@@ -46,9 +46,21 @@ OffPt(j) == << BMod(BFromBE(Seed(j, 9)), PP), BMod(BFromBE(Seed(j, 10)), PP) >>
 OffCurve(j) == IF C!OnCurve(OffPt(j)) THEN <<>> ELSE << Craft(j, "offcurve", Dof(j), OffPt(j), <<4>> \o B32(OffPt(j)[1]) \o B32(OffPt(j)[2]), Orders[(j % 2) + 1]) >>
 NonResCt(j) == << [kind |-> "craft", fault |-> "nonresidue", d |-> B32(Dof(j)), order |-> "c1c3c2", compressed |-> 1, msg |-> Msg(j),
                    ct |-> <<2 + (j % 2)>> \o B32(<<NonR[j]>>) \o Seed(j, 11) \o Msg(j)] >>
+\* compressed encodings of the same small points with x + p (still < 2^256): 02/03 || (x + p) -- only the range test of the COMPRESSED decoder rejects it
+CraftC(j, tag, d, q, c1b, order) == [kind |-> "craft", fault |-> tag, d |-> B32(d), order |-> order, compressed |-> 1, msg |-> Msg(j),
+                                     ct |-> Body(Msg(j), MulN(d, q), order, c1b)]
+YBit(q) == IF q[2] = BZero THEN 0 ELSE q[2][Len(q[2])] % 2
+XPlusPC(j, q) == << CraftC(j, "comp-x+p", Dof(j), q, <<2 + YBit(q)>> \o B32(BAdd(q[1], PP)), Orders[(j % 2) + 1]),
+                    CraftC(j, "comp-valid-small-x", Dof(j), q, <<2 + YBit(q)>> \o B32(q[1]), Orders[(j % 2) + 1]) >>
+\* x = p exactly (reduces to x = 0): (0, sqrt(b)) is a curve point iff b is a square; presented as (p, y) uncompressed and 02/03 || p compressed
+ZeroXPt == C!Lift(BZero, 0)
+XEqP(j) == IF j > 1 \/ ZeroXPt[1] # "ok" THEN <<>>
+           ELSE << Craft(j, "x=p", Dof(j), ZeroXPt[2], <<4>> \o B32(PP) \o B32(ZeroXPt[2][2]), "c1c3c2"),
+                   CraftC(j, "comp-x=p", Dof(j), ZeroXPt[2], <<2 + YBit(ZeroXPt[2])>> \o B32(PP), "c1c3c2"),
+                   Craft(j, "x=0-valid", Dof(j), ZeroXPt[2], <<4>> \o B32(BZero) \o B32(ZeroXPt[2][2]), "c1c3c2") >>
 Init == pidx = 0 /\ pout = <<>>
 Next == pidx < NK /\ pidx' = pidx + 1 /\
         pout' = << SpecCt(pidx + 1, "c1c2c3", FALSE), SpecCt(pidx + 1, "c1c3c2", FALSE), SpecCt(pidx + 1, "c1c2c3", TRUE), SpecCt(pidx + 1, "c1c3c2", TRUE) >>
-                \o XPlusP(pidx + 1, Small[pidx + 1]) \o YPlusP(pidx + 1, Small[pidx + 1]) \o OffCurve(pidx + 1) \o NonResCt(pidx + 1)
+                \o XPlusP(pidx + 1, Small[pidx + 1]) \o YPlusP(pidx + 1, Small[pidx + 1]) \o OffCurve(pidx + 1) \o NonResCt(pidx + 1) \o XPlusPC(pidx + 1, Small[pidx + 1]) \o XEqP(pidx + 1)
 Emit == \A j \in 1..Len(pout) : PrintT(<<"PLAN", ToJson(pout[j])>>)
 =============================================================================
